@@ -243,6 +243,24 @@ impl<K: KeyT, V: ValT> World<K, V> {
         (a, b)
     }
 
+    /// keys the cached old-table iterator would yield, in its order (empty if it is inconsistent)
+    pub fn cursor_keys(&self, s: usize) -> Vec<u32> {
+        let mut v = Vec::new();
+        let st = match self.vstate(s) {
+            Some(st) => st,
+            None => return v,
+        };
+        if !st.split || st.cursor_len != st.old_len {
+            return v;
+        }
+        match self.slots[s].as_ref() {
+            Some(Slot::Map(m)) => m.verif_cursor_for_each(|k, _| v.push(k.k())),
+            Some(Slot::Set(m)) => m.verif_cursor_for_each(|k| v.push(k.k())),
+            None => {}
+        }
+        v
+    }
+
     pub fn total_len(&self) -> usize {
         (1..self.slots.len())
             .map(|s| match self.slots[s].as_ref() {
